@@ -12,6 +12,8 @@ import Proofs.Lemmas.MofNum
 import Proofs.Lemmas.MofArr
 import Proofs.Lemmas.MofValue
 import Proofs.Lemmas.MofQualList
+import Proofs.Lemmas.MofInst
+import Proofs.Lemmas.MofClass
 
 namespace C08
 open Pywbem.Proto Pywbem.Model Pywbem.Model.MofStr Pywbem.Model.MofLex Pywbem.Lemmas.MofStr
@@ -318,6 +320,41 @@ theorem C08_qualifier_list_roundtrip (c : Codec) (L : CodecLaws c) (decls : List
     (hr : qualifiersTomof c qs indent maxline = .ok text) : readQualList c decls text = some qs :=
   qualifiers_roundtrip c L decls qs hok indent maxline hm text hr
 
+/-! ## Stage 3 of the declaration level: instances, then classes -/
+
+open Pywbem.Model.MofVal Pywbem.Model.MofDecl Pywbem.Lemmas.MofInst in
+/-- INSTANCE ROUND TRIP (partial: embedded instance / embedded object values and char16 values excluded).
+    Full statement intended: for every CIMInstance and its class, `readInstance cls (instance.tomof()) = instance`.
+    Proved: for every instance (any number of properties, in any order) of a class `cls` whose properties are
+    properties of the class with the class's spelling/type/array shape and without qualifiers (`InstPropOk`: what
+    the compiler copies from the class), with NULL, scalar or array values of stage 1 — references included through
+    `CodecLaws` —, distinct property names, an identifier as class name (any spelling), and every `maxline ≥ 14`:
+    if `CIMInstance.tomof` returns text, the reader (`p_instanceDeclaration`, `p_valueInitializer`, typing against
+    the class) returns exactly the instance. -/
+theorem C08_instance_roundtrip_partial (c : Codec) (L : CodecLaws c) (cls : Class c) (inst : Instance c)
+    (hok : InstanceOk c L cls inst) (maxline : Nat)
+    (hm : Pywbem.Generated.mofIndent + Pywbem.Generated.mofIndent + 8 ≤ maxline) (text : List Nat)
+    (hr : instanceTomof c inst maxline = .ok text) : readInstance c cls text = some inst :=
+  instance_roundtrip c L cls inst hok maxline hm text hr
+
+open Pywbem.Model.MofVal Pywbem.Model.MofDecl Pywbem.Lemmas.MofClass in
+/-- CLASS ROUND TRIP (partial: char16 default/qualifier values and embedded-object defaults excluded; aliases,
+    class_origin / propagated not modelled).  Full statement intended: for every CIMClass,
+    `readClass decls (class.tomof()) = class`.  Proved: for every class with any number of qualifiers, properties
+    (of every type incl. references, scalar or array with or without size, with or without default value of
+    stage 1, each with any number of qualifiers), methods (any non-reference return type, any number of
+    parameters of every type incl. references and arrays, qualifiers on methods and parameters), with or without
+    superclass, names being identifiers, the qualifier declarations in the repository (`ClassOk`), and every
+    `maxline ≥ 21`: if `CIMClass.tomof` returns text, the reader (`p_classDeclaration`, `p_classFeatureList`,
+    `p_propertyDeclaration_1..8`, `p_referenceDeclaration`, `p_methodDeclaration`, `p_parameterList`,
+    `p_parameter_1..4`, `p_qualifierList`) returns exactly the class, features in order. -/
+theorem C08_class_roundtrip_partial (c : Codec) (L : CodecLaws c) (decls : List (QualDecl c)) (cls : Class c)
+    (hok : ClassOk c L decls cls) (maxline : Nat)
+    (hm : Pywbem.Generated.mofIndent + Pywbem.Generated.mofIndent + Pywbem.Generated.mofIndent + 1 +
+      Pywbem.Generated.mofIndent + 8 ≤ maxline) (text : List Nat)
+    (hr : classTomof c cls maxline = .ok text) : readClass c decls text = some cls :=
+  class_roundtrip c L decls cls hok maxline hm text hr
+
 section Stage2Examples
 open Pywbem.Model.MofVal Pywbem.Model.MofDecl Pywbem.Lemmas.MofQual Pywbem.Lemmas.MofQualList Pywbem.Lemmas.MofDoc
 open Pywbem.Lemmas.MofValue
@@ -353,6 +390,78 @@ example : ∃ text, qualifiersTomof toyCodec exQuals 3 80 = .ok text ∧ readQua
   rcases hq with hq | hq <;> subst hq
   · exact ⟨⟨100, [101, 115, 99], rfl, by decide, by decide⟩, by rfl, ⟨exDecl, by rfl, rfl, rfl⟩, rfl⟩
   · exact ⟨⟨68, [101, 115, 99], rfl, by decide, by decide⟩, by rfl, ⟨exDecl, by rfl, rfl, rfl⟩, trivial⟩
+
+open Pywbem.Lemmas.MofClass Pywbem.Lemmas.MofInst in
+/-- `[Desc ( "x" )] class C_a : B { [Desc ( NULL )] string P1 = "a"; B REF R; uint8 M( [desc ( "x" )] uint8 a[2]); };` -/
+def exClass : Class toyCodec :=
+  ⟨[67, 95, 97], some [66], [⟨[68, 101, 115, 99], .string, .scalar (.str [120]), exDecl.flavors⟩],
+   [⟨[80, 49], .string, none, false, none, some (.scalar (.str [97])),
+      [⟨[68, 101, 115, 99], .string, .scalar .null, exDecl.flavors⟩]⟩,
+    ⟨[82], .reference, some [66], false, none, none, []⟩],
+   [⟨[77], .uint8, [⟨[97], .uint8, none, true, some 2,
+      [⟨[100, 101, 115, 99], .string, .scalar (.str [120]), exDecl.flavors⟩]⟩], []⟩]⟩
+
+open Pywbem.Lemmas.MofClass Pywbem.Lemmas.MofInst in
+theorem exQualOk (n : List Nat) (hn : n = [68, 101, 115, 99] ∨ n = [100, 101, 115, 99]) (v : Scalar toyCodec)
+    (hv : v = .str [120] ∨ v = .null) : QualifierOk toyCodec toyLaws [exDecl] ⟨n, .string, .scalar v, exDecl.flavors⟩ := by
+  rcases hn with h | h <;> subst h <;> rcases hv with h | h <;> subst h
+  · exact ⟨⟨68, [101, 115, 99], rfl, by decide, by decide⟩, by rfl, ⟨exDecl, by rfl, rfl, rfl⟩, rfl⟩
+  · exact ⟨⟨68, [101, 115, 99], rfl, by decide, by decide⟩, by rfl, ⟨exDecl, by rfl, rfl, rfl⟩, trivial⟩
+  · exact ⟨⟨100, [101, 115, 99], rfl, by decide, by decide⟩, by rfl, ⟨exDecl, by rfl, rfl, rfl⟩, rfl⟩
+  · exact ⟨⟨100, [101, 115, 99], rfl, by decide, by decide⟩, by rfl, ⟨exDecl, by rfl, rfl, rfl⟩, trivial⟩
+
+open Pywbem.Lemmas.MofClass Pywbem.Lemmas.MofInst in
+theorem exClass_ok : ClassOk toyCodec toyLaws [exDecl] exClass where
+  nameWord := ⟨67, [95, 97], rfl, by decide, by decide⟩
+  nameId := by rfl
+  super := by
+    intro s hs
+    have : s = [66] := by injection hs with hs; exact hs.symm
+    subst this; exact ⟨⟨66, [], rfl, by decide, by decide⟩, by rfl⟩
+  quals := by
+    intro q hq; simp [exClass] at hq; subst hq; exact exQualOk _ (.inl rfl) _ (.inl rfl)
+  props := by
+    intro p hp
+    simp [exClass] at hp
+    rcases hp with hp | hp <;> subst hp
+    · exact ⟨⟨80, [49], rfl, by decide, by decide⟩, by rfl, ⟨fun h => absurd h (by decide), fun _ => rfl⟩,
+        fun h => absurd h (by decide), fun h => absurd h (by decide),
+        by intro q hq; simp at hq; subst hq; exact exQualOk _ (.inl rfl) _ (.inr rfl),
+        by intro v hv; injection hv with hv; subst hv; exact ⟨rfl, rfl, by simp⟩⟩
+    · exact ⟨⟨82, [], rfl, by decide, by decide⟩, by rfl,
+        ⟨fun _ => ⟨[66], rfl, ⟨66, [], rfl, by decide, by decide⟩, by rfl⟩, fun h => absurd rfl h⟩,
+        fun _ => rfl, fun h => absurd h (by decide), by intro q hq; simp at hq,
+        by intro v hv; simp at hv⟩
+  methods := by
+    intro m hm
+    simp [exClass] at hm; subst hm
+    refine ⟨⟨77, [], rfl, by decide, by decide⟩, by rfl, by decide, by intro q hq; simp at hq, ?_⟩
+    intro p hp; simp at hp; subst hp
+    exact ⟨⟨97, [], rfl, by decide, by decide⟩, by rfl, ⟨fun h => absurd h (by decide), fun _ => rfl⟩, fun _ => rfl,
+      by intro q hq; simp at hq; subst hq; exact exQualOk _ (.inr rfl) _ (.inl rfl)⟩
+
+-- non-vacuity of the class round trip (qualifier names in two spellings, explicit NULL, reference, array parameter)
+example : ∃ text, classTomof toyCodec exClass 80 = .ok text ∧ readClass toyCodec [exDecl] text = some exClass :=
+  ⟨_, rfl, C08_class_roundtrip_partial toyCodec toyLaws [exDecl] exClass exClass_ok 80 (by decide) _ rfl⟩
+
+/-- `instance of c_A { P1 = "b"; R = NULL; };` against exClass (class name in another case) -/
+def exInst : Instance toyCodec :=
+  ⟨[99, 95, 65], [⟨[80, 49], .string, none, false, none, some (.scalar (.str [98])), []⟩,
+                  ⟨[82], .reference, some [66], false, none, none, []⟩]⟩
+
+open Pywbem.Lemmas.MofInst in
+example : ∃ text, instanceTomof toyCodec exInst 80 = .ok text ∧ readInstance toyCodec exClass text = some exInst := by
+  refine ⟨_, rfl, C08_instance_roundtrip_partial toyCodec toyLaws exClass exInst ?_ 80 (by decide) _ rfl⟩
+  refine ⟨⟨99, [95, 65], rfl, by decide, by decide⟩, by rfl, ?_, by decide⟩
+  intro p hp
+  simp [exInst] at hp
+  rcases hp with hp | hp <;> subst hp
+  · exact ⟨⟨80, [49], rfl, by decide, by decide⟩, by rfl,
+      ⟨exClass.props[0], by rfl, rfl, rfl, rfl, rfl, rfl, fun _ => ⟨by rfl, by rfl⟩⟩, rfl,
+      by intro v hv; injection hv with hv; subst hv; exact ⟨rfl, rfl, by simp⟩⟩
+  · exact ⟨⟨82, [], rfl, by decide, by decide⟩, by rfl,
+      ⟨exClass.props[1], by rfl, rfl, rfl, rfl, rfl, rfl, fun h => absurd h (by decide)⟩, rfl,
+      by intro v hv; simp at hv⟩
 
 end Stage2Examples
 
